@@ -11,6 +11,7 @@ is supposed to perform are present in the source, in order.
 import HipVerif.Gen.StrGuards
 import HipVerif.Lemmas.CoreRun
 import HipVerif.Lemmas.CoreStr
+import HipVerif.Props.C10
 
 namespace HipVerif.Props.C06
 open HipVerif.Core HipVerif.Spec.Std HipVerif.Str HipVerif.Utf8
@@ -86,6 +87,35 @@ theorem reject_unchanged (cfg : Cfg) (s : State) :
     · intro ha; simp [strStep, hg, hr, ha]
     · intro ha hb; simp [strStep, hg, hr, ha, hb]
     · intro hab; simp [strStep, hg, hr, hab]
+
+/-- `HipStr::concat` with ANY iterator / `AsRef<str>` misbehaviour: whatever value is returned is
+well-formed UTF-8 (the pieces are `&str`s, hence valid; the value is exactly the concatenation of
+the pieces actually copied — `C10.concat_adversarial` — never uninitialised bytes). -/
+theorem concat_str_valid (icap : Nat) (ps₁ ps₂ : List (List UInt8)) (bs : List (Option UInt8)) (hp : Bool)
+    (hv : ∀ p ∈ ps₂, valid p = true)
+    (h : Concat.concat Gen.Concat.concat icap ps₁ ps₂ = .value bs hp) :
+    ∃ v, bs = v.map some ∧ valid v = true := by
+  by_cases h0 : Concat.total ps₁ = 0
+  · rw [(HipVerif.Props.C10.concat_adversarial icap ps₁ ps₂).1 h0] at h
+    cases h; exact ⟨[], rfl, rfl⟩
+  · rcases (HipVerif.Props.C10.concat_adversarial icap ps₁ ps₂).2 h0 with hpanic | ⟨hval, _⟩
+    · rw [hpanic] at h; cases h
+    · rw [hval] at h; cases h
+      exact ⟨ps₂.flatten, rfl, valid_flatten hv⟩
+
+/-- the same for `HipStr::join` (the separator is a `&str` too) -/
+theorem join_str_valid (icap : Nat) (ps₁ ps₂ : List (List UInt8)) (sep : List UInt8)
+    (bs : List (Option UInt8)) (hp : Bool)
+    (hv : ∀ p ∈ ps₂, valid p = true) (hsep : valid sep = true)
+    (h : Concat.join Gen.Concat.join icap ps₁ ps₂ sep = .value bs hp) :
+    ∃ v, bs = v.map some ∧ valid v = true := by
+  by_cases h0 : ps₁ = []
+  · rw [(HipVerif.Props.C10.join_adversarial icap ps₁ ps₂ sep).1 h0] at h
+    cases h; exact ⟨[], rfl, rfl⟩
+  · rcases (HipVerif.Props.C10.join_adversarial icap ps₁ ps₂ sep).2 h0 with hpanic | ⟨hval, _⟩
+    · rw [hpanic] at h; cases h
+    · rw [hval] at h; cases h
+      exact ⟨Concat.specJoin ps₂ sep, rfl, valid_intercalate hsep hv⟩
 
 /-! Non-vacuity. -/
 
